@@ -14,10 +14,12 @@ preserved by StoreResponse at any position (`index_invariant`); hence, by induct
 (`ReachableIndex`: empty, re-read in any order, rewritten by StoreResponse), every index holds at most
 as many references as there are distinct variants in the alphabet (`every_reachable_index_bounded`) —
 independent of the number of requests; invalidation deletes the index key and the id of every reference
-it read (`invalidate_complete`). PARTIAL: the number of KEYS in the backing store (entries whose index
-was overwritten concurrently, orphaned ids) is bounded by the same finite set of ids
-(`written_keys_determined`) but that counting step is not carried out in Lean; the monitor checks both
-bounds on the implementation over long repetitions of a finite request alphabet.
+it read (`invalidate_complete`); and the number of KEYS: a store that is only ever asked to write keys
+of a finite set K (by `written_keys_determined`: the URL keys and variant ids of the alphabet) never
+holds more than |K| keys, for every sequence of writes and deletes (`store_keys_never_exceed`). What
+stays outside the theorems: that the origin's Vary values come from a finite set is part of "fixed
+finite alphabet"; orphaned entries are counted by the bound but not excluded (the monitor looks for
+them, and checks both bounds on the implementation over long repetitions of a request alphabet).
 -/
 namespace Httpcache.C19
 open Httpcache
@@ -102,6 +104,12 @@ theorem index_strings_survive_json (validUtf8 : Str → Bool) (b64 : Str → Str
     jsonOriginalString unb64 (jsonSafeString validUtf8 b64 s) = s ∧
     validUtf8 (jsonSafeString validUtf8 b64 s) = true :=
   ⟨index_string_roundtrip validUtf8 b64 unb64 hb s, index_string_is_json_safe validUtf8 b64 hv s⟩
+
+/-- for EVERY history of store writes and deletes whose written keys lie in the finite set K, the map
+    the backend behaves as (C14) never holds more than |K| keys -/
+theorem store_keys_never_exceed (K : List Str) (ops : List StoreOp) (hK : ∀ k v, StoreOp.set k v ∈ ops → k ∈ K) :
+    (kvKeys (ops.foldl applyOp []) []).length ≤ K.length :=
+  store_keys_bounded K ops hK
 
 /-- non-vacuity (a test): an index reached by two stores of the same variant and one of another -/
 example : ReachableIndex [((str% "k#0"), [], []), ((str% "k#1"), (str% "X-A"), [((str% "X-A"), (str% "1"))])]
